@@ -4,8 +4,8 @@ from props import tbcommon as tb
 
 PROP = "C06"
 ENGINE = "tb"
-LEAN_TARGETS = ["H5V.Props.C06", "H5V.Props.C06Inv"]
-AUDIT_IMPORTS = ["H5V.Props.C06Inv"]
+LEAN_TARGETS = ["H5V.Props.C06", "H5V.Props.C06Inv", "H5V.Props.C06Inv2"]
+AUDIT_IMPORTS = ["H5V.Props.C06Inv", "H5V.Props.C06Inv2"]
 THEOREMS = ["H5V.Props.C06." + t for t in [
     "C06_skeleton_iff", "C06_split_run_nonempty", "C06_split_run_concat", "C06_chars_token_nonempty",
     "C06_empty_chars_dropped", "C06_text_ops_never_detach", "C06_no_adjacent_text_run_partial",
@@ -16,7 +16,12 @@ THEOREMS = ["H5V.Props.C06." + t for t in [
     "C06_inv_every_state", "C06_document_children_every_state", "C06_document_children_eof_state", "C06_document_children",
     "C06_document_children_prefix", "C06_no_text_under_document", "C06_no_empty_text_every_state", "C06_no_empty_text",
     "C06_only_containers_have_children", "C06_only_containers_have_children_every_state",
-    "C06_template_contents_are_fragments", "C06_node_clauses_partial", "C06_no_document_child", "C06_nodeClauses_of_noAdj"]]
+    "C06_template_contents_are_fragments", "C06_node_clauses_partial", "C06_no_document_child", "C06_nodeClauses_of_noAdj",
+    # the children of html (Props/C06Inv2.lean; stack-shape invariant through all modes, foreign content, every EOF arm):
+    # head then body | frameset followed only by noframes / reconstructed formatting elements; only whitespace text
+    "C06_shape_every_state", "C06_html_children", "C06_html_children_prefix", "C06_html_children_body",
+    "C06_htmlKidsOk_iff", "C06_html_children_fmt_in_af", "C06_html_children_partial", "C06_html_text_whitespace",
+    "C06_html_children_every_state"]]
 TRUSTED = [
     "Lean 4 kernel; axioms ⊆ {propext, Classical.choice, Quot.sound} (audited per run)",
     "hand-written model lean/H5V/Model/HtmlTB/*.lean of html5ever/src/tree_builder/{mod,rules,data,tag_sets,types}.rs "
